@@ -109,7 +109,8 @@ void f_repeat_string (void) {
     {
       str = sp->u.string;
       len = SVALUE_STRLEN (sp);
-      if (len * repeat > (size_t)CONFIG_INT (__MAX_STRING_LENGTH__))
+      /* compare without multiplying: len * repeat wraps for huge repeat counts */
+      if (len && repeat > (size_t)CONFIG_INT (__MAX_STRING_LENGTH__) / len)
         error ("repeat_string: String too large.\n");
 //      repeat = CONFIG_INT(__MAX_STRING_LENGTH__) / len;
       p = ret = new_string (len * repeat, "f_repeat_string");
